@@ -451,14 +451,92 @@ theorem C02_gen_gates :
     Pyro.Gen.C02.dispatchMethodConsts.map nm = [nmGetattr, nmSetattr] := by
   refine ⟨⟨?_, ?_, ?_⟩, ?_, ?_, ?_⟩ <;> decide
 
-/-- **C02_gen_sources.**  The modelled functions are textually (comments and layout aside) the ones the model
-    was written against. -/
-theorem C02_gen_sources :
-    Pyro.Gen.C02.sourceDigests =
-      [("is_private_attribute", "79321741844a601b"), ("oneway", "09cc47fd04a643df"), ("expose", "46e6c1a2f9dc1b11"),
-       ("_get_attribute", "de34922103141b66"), ("_get_exposed_members", "ecc6da8df002e18e"),
-       ("_get_exposed_property_value", "a24a92c34a08d15b"), ("_set_exposed_property_value", "0c4048725812c922")] := by
-  decide
+/-! #### the probed decision table: the real decorators and gate functions, called by the extractor, vs the model -/
+
+namespace Probe
+
+def keyOf : Nat → Name
+  | 0 => [109]                                   -- "m"
+  | 1 => [95, 109]                               -- "_m"
+  | 2 => [95, 95, 109, 95, 95]                   -- "__m__"
+  | _ => [95, 95, 99, 97, 108, 108, 95, 95]      -- "__call__"
+
+def fnameOf (key : Name) : Nat → Name
+  | 0 => key
+  | 1 => [112, 117, 98]                          -- "pub"
+  | _ => [95, 112]                               -- "_p"
+
+def fnOpt (name : Name) (fid : Nat) : Nat → Option FnDecl
+  | 0 => none
+  | m => some ⟨name, fid, m == 2, false⟩
+
+def valOf (vkind exposed call : Nat) (callId initId fid : Nat) : Val :=
+  match vkind with
+  | 0 => .data
+  | 1 => .inst ⟨exposed != 0, call != 0, callId, initId⟩
+  | 2 => .cls ⟨exposed != 0, call != 0, callId, initId⟩
+  | _ => .fn ⟨[112, 108, 97, 105, 110], fid, exposed != 0, false⟩     -- "plain"
+
+def memberOf (key : Name) (k a1 a2 a3 a4 a5 : Nat) : MemberDecl :=
+  match k with
+  | 0 => .func ⟨fnameOf key a3, 1, a1 != 0, a2 != 0⟩
+  | 1 => .static ⟨fnameOf key a3, 1, a1 != 0, a2 != 0⟩
+  | 2 => .clsm ⟨fnameOf key a3, 1, a1 != 0, a2 != 0⟩
+  | 3 => .prop (a1 != 0) (fnOpt (fnameOf key a5) 1 a2) (fnOpt (fnameOf key a5) 2 a3) (fnOpt (fnameOf key a5) 3 a4)
+  | _ => .attr (valOf a1 a2 a3 4 5 0)
+
+/-- the row code of `Pyro.Gen.C02.probeTable` (same reading as `probe_shape` in harness/props/c02.py) -/
+def decodeRow : List Nat → Option (List ClassDecl × List (Name × Val) × Name)
+  | [ce, kk, bk, k, a1, a2, a3, a4, a5, _, _, ip, iv, ie, ic] =>
+    let key := keyOf kk
+    let member := memberOf key k a1 a2 a3 a4 a5
+    let classes : List ClassDecl :=
+      if bk == 0 then [⟨ce != 0, [(key, member)]⟩] else [⟨ce != 0, []⟩, ⟨false, [(key, member)]⟩]
+    let inst : List (Name × Val) := if ip != 0 then [(key, valOf iv ie ic 6 7 8)] else []
+    some (classes, inst, key)
+  | _ => none
+
+def errCode : Err → Nat
+  | .priv => 1 | .unexposed => 2 | .unprop => 3 | .attr => 4 | .type => 5 | .index => 6
+
+def gateOut (r : Except Err Unit × List Nat) : List Nat :=
+  (match r.1 with
+   | .ok _ => 0
+   | .error e => errCode e) :: r.2
+
+def b2n (b : Bool) : Nat := if b then 1 else 0
+
+/-- what the model says the probes of one row yield -/
+def model (cfg : Cfg) (code : List Nat) : List Nat :=
+  match decodeRow code with
+  | none => [99]
+  | some (ds, inst, key) =>
+    match buildShape ds inst with
+    | .error e => [9, errCode e]
+    | .ok sh =>
+      let call : List Nat :=
+        match getAttribute cfg sh (.str key) with
+        | (.error e, eff) => errCode e :: eff
+        | (.ok o, eff) =>
+          match callObj o with
+          | (.ok _, eff2) => 0 :: (eff ++ eff2)
+          | (.error _, eff2) => 8 :: (eff ++ eff2)
+      let md := metadata sh
+      call ++ [100] ++ gateOut (getProp cfg sh (.str key)) ++ [100] ++ gateOut (setProp cfg sh (.str key)) ++ [100] ++
+        [b2n (md.methods.contains key), b2n (md.oneway.contains key), b2n (md.attrs.contains key)]
+
+end Probe
+
+/-- **C02_gen_probes.**  On every row of the decision table that the extractor obtains by *calling* the real `expose`,
+    `oneway`, `_get_attribute` (and what it returns), `_get_exposed_property_value`, `_set_exposed_property_value` and
+    `_get_exposed_members` — every member kind and mark, under public / private / dunder / reserved keys, class exposed or
+    not, inherited from an unexposed base, shadowed by instance attributes — the model computes the same outcome, effect
+    log and advertised membership.  (Replaces a comparison of source digests: the tie is to what the functions do.) -/
+theorem C02_gen_probes : ∀ row ∈ Pyro.Gen.C02.probeTable, Probe.model genCfg row.1 = row.2 := by
+  have h : Pyro.Gen.C02.probeTable.all (fun row => Probe.model genCfg row.1 == row.2) = true := by decide +kernel
+  intro row hr
+  have := List.all_eq_true.mp h row hr
+  simpa using this
 
 /-! ### non-vacuity: concrete shapes built by the model decorators -/
 
@@ -579,21 +657,21 @@ theorem C02_translated_private (n : List Nat) :
   have htbl : Pyro.Gen.C02.is_private_attribute_tbl_private_dunder_methods = Pyro.Gen.C02.reservedDunders := by decide
   have hlen : decide (Int.ofNat n.length > (4 : Int)) = decide (n.length > 4) := by
     apply decide_eq_decide.mpr
-    simp only [Int.ofNat_eq_coe, gt_iff_lt]
+    simp only [Int.ofNat_eq_natCast, gt_iff_lt]
     constructor <;> intro h <;> omega
+  have hne : (n.head? != some 95) = !(n.head? == some 95) := rfl
   unfold Pyro.Gen.C02.is_private_attribute isPrivate isPrivateWith
-  rw [htbl, startsWith_one, startsWith_take n [95, 95], endsWith_drop n [95, 95], hlen]
-  simp only [List.length_cons, List.length_nil]
-  cases Pyro.Gen.C02.reservedDunders.contains n with
-  | true => rfl
-  | false =>
-    simp only [Bool.false_eq_true, if_false]
-    cases hh : (n.head? == some 95) with
-    | true =>
-      have h2' : (n.head? != some 95) = false := by simp [bne, hh]
-      simp [h2']
-    | false =>
-      have h2' : (n.head? != some 95) = true := by simp [bne, hh]
-      simp [h2']
+  -- bring both sides to Boolean combinations of the same five atoms, whatever statement structure the source has
+  -- (if-chains, early returns, conditions bound to locals), then decide by cases
+  simp only [htbl, startsWith_one, startsWith_take n [95, 95], endsWith_drop n [95, 95], hlen, hne,
+    List.length_cons, List.length_nil]
+  -- (for some statement structures `simp only` has already closed the goal)
+  try (
+    generalize Pyro.Gen.C02.reservedDunders.contains n = a
+    generalize (n.head? == some 95) = b
+    generalize decide (n.length > 4) = c
+    generalize (List.take 2 n == [95, 95]) = d
+    generalize (List.drop (n.length - 2) n == [95, 95]) = e
+    cases a <;> cases b <;> cases c <;> cases d <;> cases e <;> rfl)
 
 end Pyro.C02
